@@ -443,7 +443,10 @@ def act_cases(tier):
             n += 1
             if tier == 'quick' and n % 2:
                 continue
-            out.append('[f |-> "%s", a |-> %s, x0 |-> %s, y0 |-> %s, u |-> %s]' % (f, R(a), R(x0), R(y0), R(u)))
+            out.append('[f |-> "%s", a |-> %s, x0 |-> %s, y0 |-> %s, u |-> %s, pw |-> 1]' % (f, R(a), R(x0), R(y0), R(u)))
+    # deep saturation on both sides: exp(a x') = 100^(+-8) (arctan: x' = 100^(+-2))
+    for f, a, base in itertools.product(('sigmoid', 'tanh', 'softplus', 'arctan'), (F(1), F(2), F(1, 2), F(-3, 2)), (F(100), F(1, 100))):
+        out.append('[f |-> "%s", a |-> %s, x0 |-> %s, y0 |-> %s, u |-> %s, pw |-> %d]' % (f, R(a), R(F(1, 3)), R(F(-2)), R(base), 2 if f == 'arctan' else 8))
     return out
 
 
@@ -521,7 +524,7 @@ def replay_act(rec, ctx, np):
     cs = rec['cs']
     f = cs['f']
     a, x0, y0, u = fq(cs['a']), fq(cs['x0']), fq(cs['y0']), fq(cs['u'])
-    x = x0 + (u if f == 'arctan' else math.log(u) / (2 * a if f == 'tanh' else a))
+    x = x0 + (u ** cs['pw'] if f == 'arctan' else cs['pw'] * math.log(u) / (2 * a if f == 'tanh' else a))
     fw = rec['fwd']
     want = fr(fw['add']) + (0.0 if fw['tag'] == 'rat' else math.log(fr(fw['arg'])) if fw['tag'] == 'ln' else math.atan(fr(fw['arg'])))
     wantb = fr(rec['back'])
